@@ -334,6 +334,11 @@ class Gen:
         rng = self.rng
         a = self.operand('bifc', shape_pred=lambda s: len(s) >= 1)
         if a is None: return None
+        if a.op is None and a.desc.get('t') == 'basis' and rng.random() < .3:
+            # Basis.__getitem__: boolean masks and increasing index vectors give a MaskedBasis
+            if rng.random() < .5: item = ['m', [rng.random() < .6 for _ in range(a.shape[0])]]
+            else: item = ['a', sorted(rng.sample(range(a.shape[0]), rng.randint(1, a.shape[0])))]
+            return self.apply('getitem', {'items': [item], 'tuple': False}, [a])
         items, xs, inv = self.rand_items(a.shape, want_fidx=rng.random() < .25)
         if rng.random() < .2 and not inv:
             # nested a[i][j]
@@ -677,7 +682,8 @@ class Gen:
             return self.apply('searchsorted', P, [v])
         if not v.all(numpy.isfinite): return None      # excluded: numpy.interp at x = +-inf (nutils: fp[-1] + 0*inf = nan)
         n = rng.randint(2, 5)
-        xp = sorted(set(rng.choice([k / 4 + 1 / 8 for k in range(-9, 9)]) for _ in range(n)))
+        grid = [k / 4 + 1 / 8 for k in range(-9, 9)] if rng.random() < .5 else [k / 4 for k in range(-8, 9)]     # nodes between or ON the data grid
+        xp = sorted(set(rng.choice(grid) for _ in range(n)))
         if len(xp) < 2: return None
         fp = [rng.choice([k / 4 for k in range(-8, 9)]) for _ in xp]
         P = {'xp': xp, 'fp': fp}
